@@ -13,7 +13,7 @@ package engine
 // interleavings of these calls do is NOT decided by these contracts.
 
 //@ func (*engine.ControllerEngine).Stop
-//@ props C13
+//@ props C13 C08
 //@ ghost eHeld int = 0
 //@ ghost cHeld int = 0
 //@ site (*sync.RWMutex).Lock($m) as e.mx.Lock
@@ -82,6 +82,14 @@ package engine
 //@   assert [C13:watch-forgotten-only-after-its-source-stopped] stoppedOK && $k == wid
 //@   update stoppedOK = false
 //@ ensures [C13:stopped-controller-is-absent] err == nil ==> !(name in e.controllers)
+// C08: the XRD controllers delete a CRD only after Stop returned nil, so nil must mean the
+// controller really was cancelled, and a Stop that failed must leave the controller registered -
+// otherwise the retry finds nothing to stop and reports success over a controller that still runs.
+//@ ghost cancelled bool = false
+//@ site field:engine.controller.cancel() as cancel-controller
+//@   update cancelled = true
+//@ ensures [C08,C13:a-running-controller-is-cancelled-before-stop-reports-success] err == nil && old(name in e.controllers) ==> cancelled
+//@ ensures [C08,C13:a-controller-that-could-not-be-stopped-stays-registered] err != nil && old(name in e.controllers) ==> (name in e.controllers) && e.controllers[name] == old(e.controllers[name])
 
 //@ func (*engine.ControllerEngine).IsRunning
 //@ props C13
